@@ -16,7 +16,7 @@ from crosshair.tracers import NoTracing
 META = {
     "bounds": "schema X, layouts 0 and 7; 3 documents (2 queries, 1 mutation with a non-null root field) covering a leaf of every scalar kind, enum, custom scalar, lists, objects, interface and union positions; "
               "one adversarial value per request at any field instance: symbolic None/bool/int(unbounded)/str(all strings, non-numeric positions) or one of "
-              "a 60-entry catalogue (non-finite/huge/denormal floats, huge ints, numeric strings, bytes, tuples, sets, generators, objects, exceptions, Decimal/Fraction, nested garbage)",
+              "a 65-entry catalogue (non-finite/huge/denormal floats, huge ints, numeric strings, bytes, tuples, sets, generators, objects, exceptions, Decimal/Fraction, nested garbage)",
     "outside": "symbolic floats and numeric strings at Int/Float positions (numeric laws for all floats: C10/E2); several adversarial values in one request (C02 pairs)",
     "explanation": "Oracle: structural conformance checker vf/ref/conform.py + null/err accounting relative to the fault-free response.",
 }
@@ -50,6 +50,22 @@ def _gen():
     yield 1
 
 
+class TypeRef:
+    """stands for the schema's own type OBJECT of that name (a runtime type may be designated by name or by the GraphQLObjectType itself); resolved per engine in check()"""
+    def __init__(self, name):
+        self.name = name
+
+
+def _typerefs(v, eng):
+    if isinstance(v, TypeRef):
+        return eng._schema.find_type(v.name)
+    if isinstance(v, dict):
+        return {k: _typerefs(x, eng) for k, x in v.items()}
+    if isinstance(v, list):
+        return [_typerefs(x, eng) for x in v]
+    return v
+
+
 CATALOGUE = [
     lambda: float("nan"), lambda: float("inf"), lambda: float("-inf"), lambda: -0.0, lambda: 1e308, lambda: 5e-324,
     lambda: 2.0 ** 31, lambda: -2.0 ** 31, lambda: 2.0 ** 53 + 2, lambda: 3.0, lambda: 1.5, lambda: 2 ** 31, lambda: -2 ** 31 - 1,
@@ -61,8 +77,12 @@ CATALOGUE = [
     lambda: True, lambda: False, lambda: Weird(), lambda: L2([1]), lambda: [], lambda: {}, lambda: (lambda: 1), lambda: 0, lambda: "０",
     lambda: [{"_typename": "A", "id": None}], lambda: {"_typename": "A", "id": None}, lambda: 1e400, lambda: complex(1, 1),
     lambda: "OBJECT", lambda: "FIELD_DEFINITION", lambda: "red", lambda: "Query",      # values of OTHER enums (introspection's), wrong case, a type name
+    # the runtime type designated by the schema's type OBJECT instead of its name: a member, a non-member object type, a non-object type, in a list
+    lambda: {"_typename": TypeRef("A"), "id": "ta", "n": 1}, lambda: {"_typename": TypeRef("C"), "id": "tc", "x": 1}, lambda: {"_typename": TypeRef("Leaf"), "id": "tl", "n": 1},
+    lambda: {"_typename": TypeRef("Node"), "id": "tn"}, lambda: [{"_typename": TypeRef("B"), "id": "tb", "flag": True}, {"_typename": TypeRef("C"), "id": "tc2", "x": 2}],
+    lambda: world.Obj({"_typename": TypeRef("C"), "id": "oc", "x": 3}),
 ]
-NOT_JSON = {0, 1, 2, 53, 25, 26, 27, 28, 29, 30, 31, 32, 38, 39, 40, 41, 44, 48, 54}     # entries a pass-through custom scalar would leak by design
+NOT_JSON = {0, 1, 2, 53, 25, 60, 61, 62, 63, 64, 65, 26, 27, 28, 29, 30, 31, 32, 38, 39, 40, 41, 44, 48, 54}     # entries a pass-through custom scalar would leak by design
 
 
 def _warm():
@@ -103,6 +123,8 @@ def lookup(data, path):
 
 def check(doc, b, p, value, do_json):
     world.reset()
+    with NoTracing():
+        value = _typerefs(value, ENGS[b]) if not isinstance(value, world.Obj) else world.Obj(_typerefs(dict(value.__dict__), ENGS[b]))
     world.FAULTS[p] = lambda parent, fname: value
     ok, resp = safe(lambda: env.run(ENGS[b].execute(DOCS[doc], initial_value=DATA)))
     observe(resp)
@@ -148,14 +170,14 @@ def check(doc, b, p, value, do_json):
 
 
 SH = [{"doc": d, "bits": b} for d in DOCS for b in (0, 7)]
-NCH = 5
+NCH = 6
 SH_CAT = [{"doc": d, "bits": b, "chunk": c} for d in DOCS for b in (0, 7) for c in range(NCH)]
 CHUNK = (len(CATALOGUE) + NCH - 1) // NCH
 
 
 @obligation(tier="quick", timeout=240, shards=SH_CAT,
             samples=[{"k": 2, "idx": 0}, {"k": 5, "idx": 13}, {"k": 0, "idx": 28}],
-            selectors=["k: field instance receiving the value", "idx: catalogue entry (55 adversarial values)", "shard: document, nullability layout"],
+            selectors=["k: field instance receiving the value", "idx: catalogue entry (65 adversarial values)", "shard: document, nullability layout"],
             bounds="catalogue x every field instance", 
             note="adversarial catalogue value at every position: no raise, conforms, nulls explained, json.dumps succeeds")
 def c03_catalogue(k: int, idx: int) -> bool:
